@@ -2,7 +2,7 @@ META = dict(
     engine='cosched+seqx',
     technique='stateless model checking: preemption-bounded exhaustive schedule enumeration (CHESS) of the real parsec_hash_table.c with forced resizes, brute-force linearizability against a sequential map; plus BFS over all sequential operation histories against a reference map',
     level_text='E1: every schedule with <= b preemptions (b=2 quick, 3 thorough) of ten 2-3 thread scripts (insert/find/remove/find-or-insert under lock_bucket) over the real table with nb_bits=1, max_collisions_hint=1 and colliding key hashes, so that resizes and migrations out of old tables happen inside the explored window; each history is checked for linearizability against a map with unique keys, and at quiescence for_all visits each stored element once, no table was unlinked while non-empty, every lock is free. E2: all sequential histories up to depth 6 (quick) / closure (thorough) over 5 keys with hints 1 and 2, reference map + structural invariants after every operation.',
-    level_note='Sequential consistency at instrumented accesses (gcc -fsanitize=thread instrumentation + own runtime); 2-3 threads, <= 2 operations per thread; the property text speaks of 1..16 threads: only 2-3 are explored, exhaustively within the preemption bound. parsec_atomic_lock is replaced in the harness TU by an equivalent spin lock whose wait hook sits inside the loop (engine limitation, see NOTES.md).',
+    level_note='Sequential consistency at instrumented accesses (gcc -fsanitize=thread instrumentation + own runtime); 2-3 threads, <= 2 operations per thread; the property text speaks of 1..16 threads: only 2-3 are explored, exhaustively within the preemption bound.',
 )
 RULE = ("cosched: every schedule of each 2-3 thread script over the real hash table with at most b preemptions "
         "(scheduling points = every instrumented access to the table's rwlock, rw_hash pointer, every table's next/used_buckets, "
